@@ -231,6 +231,22 @@ func init() {
 		}
 		return okStr(hx(b) + " | " + fmtFrame(&q)), nil
 	}
+	// phytextrt <frame>: MarshalText, then UnmarshalText of that text into a fresh value
+	opTable["phytextrt"] = func(r *tokReader) (string, error) {
+		p, err := parseFrame(r)
+		if err != nil {
+			return "", err
+		}
+		t, e := p.MarshalText()
+		if e != nil {
+			return resERR, nil
+		}
+		var q lw.PHYPayload
+		if e := q.UnmarshalText(t); e != nil {
+			return okStr("t" + string(t) + " | " + resERR), nil
+		}
+		return okStr("t" + string(t) + " | " + fmtFrame(&q)), nil
+	}
 	// jart <join-accept frame>: JoinAcceptPayload.MarshalBinary, then UnmarshalBinary into a fresh value (the payload as the
 	// device sees it after decryption)
 	opTable["jart"] = func(r *tokReader) (string, error) {
